@@ -1202,6 +1202,12 @@ func extractAggFieldWithExpression(exprStr string, funcName string) (fieldName s
 		}
 	}
 
+	// A number is a constant, not a column: count(1) counts every row, it does
+	// not look for a column named "1". It is evaluated as an expression.
+	if fieldExpr != "" && fieldExpr[0] >= '0' && fieldExpr[0] <= '9' {
+		isSimpleField = false
+	}
+
 	// If simple field, return field name directly, don't create expression
 	if isSimpleField {
 		return fieldExpr, "", nil
